@@ -798,23 +798,49 @@ func windowSchedule(c *Ctx, win, nkeys int) (*xhist, error) {
 		return nil, err
 	}
 	defer x.close()
+	if err := x.runWindow(winCfg{keyPrefix: "k", win: win, nkeys: nkeys, seed: true, earlySig: "c34-reader-started-during-unfinished-commit"}); err != nil {
+		return x, err
+	}
+	x.serialCheck()
+	return x, nil
+}
+
+// winCfg: one commit with a reader in one of its windows, on an open history.
+// Transaction ids idBase+0 (seed), +1 (older reader), +3 (writer), +4 (started in the window),
+// +5 (started after Commit returned).
+type winCfg struct {
+	idBase    int
+	keyPrefix string
+	win       int  // 0..nkeys-1: after that entry went into the memtable; nkeys: before the ack; nkeys+1: before the request is queued
+	nkeys     int
+	seed      bool   // commit "0" to every key first (then this is not the first commit on the DB)
+	earlySig  string // signature when a transaction started in the window reads at/above the commit ts without waiting
+}
+
+func (x *xhist) runWindow(w winCfg) error {
+	c := x.c
+	nkeys, win, b := w.nkeys, w.win, w.idBase
 	keys := make([][]byte, nkeys)
 	for i := range keys {
-		keys[i] = []byte(fmt.Sprintf("k%d", i))
+		keys[i] = []byte(fmt.Sprintf("%s%d", w.keyPrefix, i))
 	}
-	x.xbegin(0, true, 0)
-	for _, k := range keys {
-		x.xset(0, k, []byte("0"))
+	var old []byte // what a reader below the commit must see
+	if w.seed {
+		old = []byte("0")
+		x.xbegin(b+0, true, 0)
+		for _, k := range keys {
+			x.xset(b+0, k, old)
+		}
+		x.xcommit(b+0, 0)
 	}
-	x.xcommit(0, 0)
-	x.xbegin(1, false, 0) // the older reader
-	x.xbegin(3, true, 0)  // the writer
+	x.xbegin(b+1, false, 0) // the older reader
+	x.xbegin(b+3, true, 0)  // the writer
 	for i, k := range keys {
 		v := []byte("1")
 		if i%2 == 1 {
-			v = bytes.Repeat([]byte("1"), 40) // above the value threshold: goes through the value log
+			v = bytes.Repeat([]byte("1"), 40) // above the value threshold of the history DBs: value log
 		}
-		x.xset(3, k, v)
+		x.xset(b+3, k, v)
 	}
 	target, idx := "persist.wal.put", win
 	switch {
@@ -840,27 +866,29 @@ func windowSchedule(c *Ctx, win, nkeys int) (*xhist, error) {
 	}})
 	armed.Store(true)
 	done := make(chan int, 1)
-	go func() { done <- x.xcommit(3, 0) }()
+	go func() { done <- x.xcommit(b+3, 0) }()
 	select {
 	case <-reached:
 	case <-time.After(20 * time.Second):
 		close(release)
-		return x, fmt.Errorf("window schedule: hook %s/%d was not reached", target, idx)
+		return fmt.Errorf("window schedule: hook %s/%d was not reached", target, idx)
 	}
-	rep := J{"window": fmt.Sprintf("%s/%d", target, idx), "keys": nkeys}
+	cts := x.db.VerifNextTs() - 1 // newCommitTs has run in every window
+	rep := J{"window": fmt.Sprintf("%s/%d", target, idx), "keys": nkeys, "commit_ts": cts, "prefix": w.keyPrefix}
+	isOld := func(v []byte) bool { return bytes.Equal(v, old) }
 	// (1) the older reader, inside the window
 	none := true
 	for _, k := range keys {
-		_, v := x.xget(1, k)
-		if !bytes.Equal(v, []byte("0")) {
+		if _, v := x.xget(b+1, k); !isOld(v) {
 			none = false
 		}
 	}
-	x.xiter(1, false, nil, nil)
+	x.xiter(b+1, false, []byte(w.keyPrefix), nil)
 	c.Oracle(none, "c03-partial-commit-observed", "a reader below the commit timestamp saw a write of a commit that is being applied", rep)
 	// (2) Commit has not returned
 	c.Oracle(len(done) == 0, "c03-commit-returned-before-applied", "Commit returned while its request was still being applied", rep)
-	// (3) a transaction started inside the window
+	// (3) a transaction started inside the window: NewTransaction must wait for the acknowledgement
+	// (its read timestamp is the commit's timestamp)
 	r1 := make(chan *badger.Txn, 1)
 	go func() { r1 <- x.db.NewTransaction(false) }()
 	var tx1 *badger.Txn
@@ -870,51 +898,75 @@ func windowSchedule(c *Ctx, win, nkeys int) (*xhist, error) {
 	case <-time.After(15 * time.Millisecond):
 		c.Count("window-reader-blocked-until-ack")
 	}
+	var inWin []int
+	if tx1 != nil {
+		// it did not wait: what it reads now, while the commit is unfinished
+		n := 0
+		for _, k := range keys {
+			if it, err := tx1.Get(k); err == nil {
+				if v, _ := it.ValueCopy(nil); len(v) > 0 && v[0] == '1' {
+					n++
+				}
+			}
+		}
+		inWin = append(inWin, n)
+		rep["reader_rts"] = tx1.VerifReadTs()
+		rep["new_values_seen_in_window"] = n
+	}
+	c.Oracle(tx1 == nil || tx1.VerifReadTs() < cts, w.earlySig,
+		"a transaction started while a commit was still being applied got a read timestamp at or above that commit's timestamp without waiting for it (it can read a partially applied commit)", rep)
 	close(release)
 	code := <-done
 	if tx1 == nil {
 		tx1 = <-r1
 	}
 	if code != 0 {
-		return x, fmt.Errorf("window schedule: commit failed with code %d", code)
+		return fmt.Errorf("window schedule: commit failed with code %d", code)
 	}
-	x.txns[4], x.tupd[4], x.tpend[4] = tx1, false, nil
-	x.tx[4] = &ctxn{id: 4, rts: tx1.VerifReadTs(), writes: map[string][]byte{}}
-	x.emit(fmt.Sprintf("(Begin 4 false %d)", tx1.VerifReadTs()), fmt.Sprintf("begin t4 (inside the window) rts=%d", tx1.VerifReadTs()))
+	x.txns[b+4], x.tupd[b+4], x.tpend[b+4] = tx1, false, nil
+	x.tx[b+4] = &ctxn{id: b + 4, rts: tx1.VerifReadTs(), writes: map[string][]byte{}}
+	x.emit(fmt.Sprintf("(Begin %d false %d)", b+4, tx1.VerifReadTs()), fmt.Sprintf("begin t%d (inside the window) rts=%d", b+4, tx1.VerifReadTs()))
 	nNew := 0
 	for _, k := range keys {
-		_, v := x.xget(4, k)
+		_, v := x.xget(b+4, k)
 		if len(v) > 0 && v[0] == '1' {
 			nNew++
 		}
 	}
-	c.Oracle(nNew == 0 || nNew == nkeys, "c03-partial-commit-observed", "a transaction started while a commit was being applied saw only part of it", rep)
-	c.Oracle(nNew == nkeys, "c03-commit-not-visible-at-its-timestamp", "a transaction whose read timestamp is the commit's timestamp does not see the commit", rep)
+	okRep := nNew == 0 || nNew == nkeys
+	for _, n := range inWin {
+		if n != nNew {
+			okRep = false // partial, or not repeatable inside one transaction
+		}
+	}
+	c.Oracle(okRep, "c03-partial-commit-observed", "a transaction started while a commit was being applied saw only part of it (or its reads changed when the commit finished)", rep)
+	if tx1.VerifReadTs() >= cts {
+		c.Oracle(nNew == nkeys, "c03-commit-not-visible-at-its-timestamp", "a transaction whose read timestamp is at or above the commit's timestamp does not see the commit", rep)
+	}
 	// (4) a transaction started after Commit returned
-	x.xbegin(5, false, 0)
+	x.xbegin(b+5, false, 0)
 	nNew = 0
 	for _, k := range keys {
-		_, v := x.xget(5, k)
+		_, v := x.xget(b+5, k)
 		if len(v) > 0 && v[0] == '1' {
 			nNew++
 		}
 	}
-	x.xiter(5, c.Rng.Intn(2) == 0, nil, nil)
+	x.xiter(b+5, c.Rng.Intn(2) == 0, []byte(w.keyPrefix), nil)
 	c.Oracle(nNew == nkeys, "c03-commit-not-visible-after-return", "a transaction started after Commit returned does not see all of its writes", rep)
 	// the older reader still sees none of it
 	none = true
 	for _, k := range keys {
-		_, v := x.xget(1, k)
-		if !bytes.Equal(v, []byte("0")) {
+		if _, v := x.xget(b+1, k); !isOld(v) {
 			none = false
 		}
 	}
 	c.Oracle(none, "c03-partial-commit-observed", "a reader below the commit timestamp saw a write of a later commit", rep)
-	x.xdiscard(1)
-	x.xdiscard(4)
-	x.xdiscard(5)
-	x.serialCheck()
-	return x, nil
+	x.xdiscard(b + 1)
+	x.xdiscard(b + 4)
+	x.xdiscard(b + 5)
+	badger.VerifSetController(nil)
+	return nil
 }
 
 func xInput(x *xhist) J {
@@ -1465,6 +1517,9 @@ func init() {
 			runtime.GOMAXPROCS(4)
 		}
 		if err := runConcSchedules(c, true); err != nil {
+			return err
+		}
+		if err := runWindowAfterReset(c); err != nil {
 			return err
 		}
 		if err := stressAtomic(c, concScale(c), false); err != nil {
